@@ -65,6 +65,15 @@ def eqs():
                   "limit(6; 0 | def rec: if (. < 3 and (%s | not | not)) then ., (. + 1 | rec) else empty end; rec)" % c))
         E.append(("until", "0 | until(. >= 3 or (%s | not); . + 1)" % c,
                   "0 | def rec: if (. >= 3 or (%s | not)) then . else . + 1 | rec end; rec" % c))
+    for upd in [". + 1", "(. + 1, . + 2)", "empty", "(. + 2, . + 1)", "error(\"u\")", "if . < 2 then (. + 1, . + 1) else . + 1 end"]:
+        for cnd in [". >= 3", "(. >= 3, . >= 2)", "(. >= 3, true)", ". >= 3 or error(\"c\")", "(false, . >= 2)", "empty", "null", ". > 100"]:
+            E.append(("until-multi", "limit(40; 0 | until(%s; %s))" % (cnd, upd),
+                      "limit(40; 0 | def rec: if (%s) then . else (%s) | rec end; rec)" % (cnd, upd)))
+            wc = cnd.replace(">=", "<")
+            E.append(("while-multi", "limit(40; 0 | while(%s; %s))" % (wc, upd),
+                      "limit(40; 0 | def rec: if (%s) then ., ((%s) | rec) else empty end; rec)" % (wc, upd)))
+            E.append(("recurse-multi", "limit(40; 0 | recurse(%s | select(. < 4); %s))" % (upd, wc),
+                      "limit(40; 0 | def r: ., (((%s | select(. < 4)) | select(%s)) | r); r)" % (upd, wc)))
     E.append(("recurse0", "[recurse]", "[recurse(.[]?)]"))
     E.append(("dotdot", "[..]", "[recurse]"))
     E.append(("recurse2", "[limit(9; recurse(.[]?; . != 2))]", "[limit(9; recurse(.[]? | select(. != 2)))]"))
@@ -81,7 +90,9 @@ def gen(ctx):
         light = [e for e in E if e[0] not in ("range3",)]
         rng.shuffle(heavy)
         rng.shuffle(light)
-        E = light[:1700] + heavy[:500]
+        multi = [e for e in light if e[0].endswith("-multi")]
+        light = [e for e in light if not e[0].endswith("-multi")]
+        E = light[:1600] + heavy[:450] + multi
     cases = []
     for kind, lhs, rhs in E:
         inp = from_json(__import__("json").loads(rng.choice(INPUTS)))
